@@ -116,7 +116,15 @@ def local_checks(b, rs, viol, stats):
                 viol.append({"inv": "EKF-cov", "msg": f"posterior covariance after one step differs from the reference EKF step: {ec:.2e}",
                              "t": float(pre.t), "h": h})
         if not onp.all(onp.isfinite(m)) or not onp.all(onp.isfinite(P)):
-            viol.append({"inv": "EKF-finite", "msg": "non-finite posterior"})
+            v = {"inv": "EKF-finite", "msg": "non-finite posterior"}
+            # finding predicate (same root cause as KF-C01-dynamic-zero-residual): dynamic calibration whose mean-only
+            # residual is exactly zero in floating point -- the calibrated scale is 0 (or NaN) and the update divides 0/0,
+            # whereas the 50-digit recursion has a tiny positive scale and a finite posterior
+            sc_out = onp.atleast_1d(onp.asarray(post.output_scale, dtype=float))
+            if cfg["calib"] == "dynamic" and not onp.all(sc_out > 0):
+                v = {"inv": "EKF-finite-dynamic-zero-residual", "finding": "KF-C02-dynamic-zero-residual",
+                     "msg": f"non-finite posterior after a dynamically calibrated step whose output scale is {sc_out.tolist()} (kappa {float(st['kappa']):.1e})"}
+            viol.append(v)
         # a retry must start from the untouched state
         if prev_pre is not None and float(prev_pre.t) == float(pre.t):
             a, A_ = embed.normal_np(prev_pre.u)
